@@ -350,6 +350,14 @@ func (m *collection) mergerNotifyPersister() {
 			prevLowerLevelSnapshot.decRef()
 		}
 
+		// The child stacks need the current lower level too: the one
+		// they captured at ingest may predate a persistence round
+		// that completed since, and merge operands of later rounds
+		// are resolved through it.
+		if m.lowerLevelSnapshot != nil {
+			m.refreshChildLLSnapshots(m.stackDirtyBase, m.lowerLevelSnapshot.ss)
+		}
+
 		if m.waitDirtyOutgoingCh != nil {
 			close(m.waitDirtyOutgoingCh)
 		}
